@@ -402,10 +402,14 @@ func convertUnionToConstraint[T any, R any](value any) R {
 
 // extractUnionValue extracts the base type T from constraint type R.
 func extractUnionValue[T any, R any](value R) T {
+	// A nil result (a member accepted a value without dynamic type) cannot be
+	// asserted to T, not even to any: hand on the zero T.
 	if v, ok := any(value).(*any); ok && v != nil {
-		return any(*v).(T) //nolint:unconvert // generic constraint conversion
+		r, _ := any(*v).(T) //nolint:unconvert // generic constraint conversion
+		return r
 	}
-	return any(value).(T)
+	r, _ := any(value).(T)
+	return r
 }
 
 // convertToUnionConstraint attempts to convert a value to constraint type R.
